@@ -9,3 +9,24 @@ Definition allowed_store (s : string * string * string * string) : bool :=
   let '(pkg, fn, _, _) := s in
   String.eqb pkg "github.com/open-telemetry/otel-arrow/api/experimental/arrow/v1" &&
   has_prefix "file_opentelemetry_proto_experimental_arrow_v1_arrow_service_proto_" fn.
+
+(* Package-level variables that can reach mutable memory (generated list: gen/GlobalVars.v).  Acceptable are
+   - error values (errors.New results, never modified);
+   - prototypes of library types that are immutable by their API contract: Arrow schemas and data types, the table of
+     payload-type descriptors, protobuf/grpc descriptors, the sync.Once of the generated protobuf code;
+   - lookup tables whose entries are immutable values (strings, numbers, enums, data types, functions).
+   None of them is ever stored to outside package initialisation (gen/GlobalStores.v), so they are read-only at run time.
+   A variable holding stateful objects (builders, sorters, encoders, caches, pools) is not in this list. *)
+Definition immutable_types : list string := [
+  "*arrow.Schema"; "*arrow.StructType"; "*arrow.MapType"; "*arrow.SparseUnionType"; "arrow.BinaryDataType";
+  "arrow.payloadTypes";
+  "grpc.ServiceDesc"; "protoreflect.FileDescriptor"; "sync.Once";
+  "[]protoimpl.EnumInfo"; "[]protoimpl.MessageInfo"; "[]interface{}"; "[]int32"; "[]byte";
+  "map[int32]string"; "map[string]int32";
+  "map[string]config.OrderAttrs16By"; "map[string]config.OrderAttrs32By"; "map[string]config.OrderSpanBy";
+  "[]uint64"; "[]arrow.DataType";
+  "map[string]func(fieldID int, attrName string) otlp.AttributeFeeder"
+].
+Definition allowed_global (g : string * string * string * string) : bool :=
+  let '(_, _, typ, kind) := g in
+  String.eqb kind "error" || existsb (String.eqb typ) immutable_types.
